@@ -32,10 +32,10 @@ def is_arith(f):
     return f[0] in F.ARITH1 + F.ARITH2 + F.ARITHF2
 
 
-def decompositions(f, limit=None):
+def decompositions(f, limit=None, arith=False):
     """yield (defs, top): defs = ordered list of (name, formula-with-refs); identical sub-formulas share one name.
-    Arithmetic sub-terms are not named (a named assertion is a formula)."""
-    pos = [p for p in positions(f) if not is_arith(get(f, p))]
+    Arithmetic sub-terms are named only with arith=True (`a = abs(x); out = (a <= y) and (a >= 1)`)."""
+    pos = [p for p in positions(f) if arith or not is_arith(get(f, p))]
     n = 0
     for r in range(1, len(pos) + 1):
         for sub in itertools.combinations(pos, r):
